@@ -30,6 +30,8 @@ def cases(tier):
     out = [{'st': s, 'cmd': c, 'vols': v, 'uid': u} for u in (0, 1000) for v in VOLS for c in CMDS for s in STATES]
     # a volume whose mount point merely EXTENDS the text of $HOME (/home/u-usb next to HOME=/home/u): no special treatment
     out += [{'st': s, 'cmd': 'put', 'vols': 'home-prefix', 'uid': u} for u in (0, 1000) for s in STATES]
+    # the volume list comes from TRASH_VOLUMES and spells the volume as LINK/.. (and with doubled / trailing slashes)
+    out += [{'st': 'sticky', 'cmd': cmd, 'vols': 'env-' + sp, 'uid': u} for u in (0, 1000) for sp in ('dotdot', 'slashes') for cmd in ('list', 'empty', 'empty0', 'rm-star')]
     return out
 
 
@@ -82,7 +84,35 @@ def run_home_prefix(c):
     return {'verdict': 'ok', 'klass': 'insecure:ignored', 'nontrivial': 'ignored|' + dims, 'detail': detail}
 
 
+def run_env_volumes(c):
+    uid = c['uid']
+    W = scen.base_world(mounts=['/', '/mnt/v1'], uid=uid, cwd='/')
+    W.dir('/mnt/v1/sub').link('/mnt/lk', '/mnt/v1/sub')
+    spelled = '/mnt/lk/..' if c['vols'] == 'env-dotdot' else '//mnt//v1/'
+    W.dir('/mnt/v1/.Trash', mode=0o1777)
+    good = populate(W, '/mnt/v1/.Trash', uid, '/mnt/v1', 'v1')          # the volume really named: sticky .Trash, must be used
+    W.dir('/mnt/.Trash', mode=0o777)
+    bad = populate(W, '/mnt/.Trash', uid, '/mnt', 'lookalike')        # where LINK/.. collapses to lexically: not sticky, not a volume at all
+    argv = {'list': ['trash-list'], 'empty': ['trash-empty'], 'empty0': ['trash-empty', '0'], 'rm-star': ['trash-rm', '*']}[c['cmd']]
+    env = dict(W.env, TRASH_VOLUMES=spelled)
+    with cell.Sandbox(W.spec()) as sb:
+        before = sb.snapshot()
+        r = sb.run(argv, cwd='/', env=env, now='2024-06-06T06:06:06')
+        after = sb.snapshot()
+    detail = {'argv': argv, 'TRASH_VOLUMES': spelled, 'exit': r.exit, 'out': r.out[-300:], 'err': r.err[-300:]}
+    dims = 'vols=%s|cmd=%s' % (c['vols'], c['cmd'])
+    if world.under(before, '/mnt/.Trash') != world.under(after, '/mnt/.Trash') or 'lookalike' in r.out:
+        return {'verdict': 'viol', 'sig': 'C08|insecure-top-%s|cmd=%s|TRASH_VOLUMES-spelling' % ('shown' if 'lookalike' in r.out else 'modified', c['cmd']), 'klass': 'insecure-used',
+                'nontrivial': 'bad|' + dims, 'detail': detail}
+    used = ('one-v1' in r.out) if c['cmd'] == 'list' else not world.under(after, good + '/files/one')
+    if not used:
+        return {'verdict': 'viol', 'sig': 'C08|secure-top-not-used|cmd=%s|TRASH_VOLUMES-spelling' % c['cmd'], 'klass': 'secure-not-used', 'nontrivial': 'notused|' + dims, 'detail': detail}
+    return {'verdict': 'ok', 'klass': 'secure:used', 'nontrivial': 'used|' + dims, 'detail': detail}
+
+
 def run_case(c):
+    if c['vols'].startswith('env-'):
+        return run_env_volumes(c)
     if c['vols'] == 'home-prefix':
         return run_home_prefix(c)
     uid = c['uid']
